@@ -15,8 +15,8 @@ derived Serialize prints the string): one encoding using another conversion prin
 Noted, not armed: the inline row-selection builders in build_record_batch accept fewer variants than the functions (no Utf8 parsing); a u64 above i64::MAX is kept as a string and becomes null in an Int64 Arrow column.
 Does NOT decide numeric equality of decoded cells, batch-size independence, or byte-level agreement of the three encodings.
 """
-FLOOR = 8
-REQUIRED = ["C20.a", "C20.b", "C20.c", "C20.d", "C20.e", "C20/C03.e1", "C20/C03.e2"]
+FLOOR = 10
+REQUIRED = ["C20.a", "C20.b", "C20.c", "C20.d", "C20.e", "C20.f", "C20.g", "C20/C03.e1", "C20/C03.e2"]
 
 
 def run(ctx):
@@ -105,7 +105,40 @@ def run(ctx):
         return bad
     ctx.run("C20.c", "K11 SIB", "Renderer::render implementations", "every encoding prints the response's own status code", c)
 
-    ctx.note("build_record_batch's inline row-selection builders accept fewer variants than the builder functions; u64 > i64::MAX is kept as Utf8 and becomes null in an Int64 column (reproduced, value level, not armed)")
+    def g_(inst):
+        """build_record_batch encodes either the whole batch or a row selection. Both cases must convert a typed cell through the
+        same cell builder (a second, inline copy lacked the Utf8 arms: the same cell was 42 in one Arrow batch and null in the next,
+        depending on whether LIMIT / OFFSET / de-duplication had dropped a row of that batch)."""
+        bad = []
+        b = F.fn("shared::response::arrow::build_record_batch")
+        sw = [(i, si) for i, si in enum_switches_on(b, lambda L: has_origin(L, "param", "row_indices"), r"option::Option")]
+        if not sw:
+            raise AnchorMissing("test of row_indices in build_record_batch")
+        i, si = sw[0]
+        some_r = set()
+        none_r = set()
+        for t in edges_for_variant(si, "Some"):
+            some_r |= edge_dominated(b, (i, t))
+        for t in edges_for_variant(si, "None"):
+            none_r |= edge_dominated(b, (i, t))
+        typed = re.compile(r"build_(int64|float64|bool|timestamp)_array_from_scalars$")
+
+        def builders(region):
+            return {typed.search(c.nname).group(1) for c in b.calls if not c.cleanup and c.bb in region and typed.search(c.nname)}
+        bs, bn = builders(some_r), builders(none_r)
+        inline = sorted({c.nname.split("::")[-2] for c in b.calls if not c.cleanup and c.bb in some_r | none_r and
+                         re.search(r"(Int64|Float64|Boolean|TimestampMillisecond|PrimitiveBuilder|BooleanBuilder)\w*::append_value$|PrimitiveBuilder<T>::append_value$", c.name)})
+        inst.sites += [sp(b, i), "typed builders: whole batch %s, row selection %s, inline typed append sites: %s" % (sorted(bn), sorted(bs), inline)]
+        if len(bn) < 4:
+            raise AnchorMissing("the four typed cell builders on the whole-batch path (%s)" % sorted(bn))
+        for ty in sorted(bn - bs):
+            bad.append(("selection-own-builder:%s" % ty, "the row-selection case of build_record_batch does not encode %s cells through build_%s_array_from_scalars like the whole-batch case: the two cases can convert the same cell differently" % (ty, ty), sp(b, i)))
+        if inline:
+            bad.append(("inline-typed-builder", "build_record_batch appends typed cells inline (%s) next to the shared builders" % inline, sp(b, i)))
+        return bad
+    ctx.run("C20.g", "K11 SIB", "shared::response::arrow::build_record_batch", "whole-batch and row-selection encoding share the cell builders", g_)
+
+    ctx.note("a u64 above i64::MAX is kept as Utf8 and becomes null in an Arrow Int64 column while JSON prints the number (value level, not armed)")
 
     def d(inst):
         bad = []
@@ -182,3 +215,82 @@ def run(ctx):
             raise AnchorMissing("text-printing stream_batch / stream_row implementations (found %d, confirmed 4)" % sites)
         return bad
     ctx.run("C20.e", "K11 SIB", "Renderer::stream_batch / stream_row", "every text encoding converts cells through ScalarValue::to_json", e_)
+
+    def f_(inst):
+        """The Arrow writers hand the encoder either a row selection or None = "the whole batch". None is equivalent to the JSON
+        frames (which emit exactly the accepted rows) only when every row of the batch was accepted: the None must sit behind the
+        true edge of len(accepted rows) == len(batch), and the Some(..) must carry the accepted rows. Two sites: the QUERY writer
+        (accepted rows = the vector pushed behind try_accept_row) and the SHOW writer's write_arrow_batch (accepted rows = its
+        row_indices parameter, which its caller fills the same way)."""
+        bad = []
+
+        def site(b, accv, acc_upvar, tag):
+            wb = one(b, r"ArrowStreamEncoder::write_batch$")
+
+            def from_acc(op_):
+                L = b.origins(op_)
+                if acc_upvar and any(l[0] in ("upvar", "param") and l[1] == acc_upvar for l in L):
+                    return True
+                if accv and (b._origin_locals(op_) & accv):
+                    return True
+                return any(x[0] == "call" and re.search(r"as_slice$|Deref>::deref$|as_ref$", norm_path(x[1])) and from_acc(b.call_at(x[2]).args[0]) for x in L)
+            sel = None
+            for k_, a in enumerate(wb.args):
+                L = b.origins(a)
+                if any(l[0] == "agg" and re.search(r"Option::(None|Some)$", l[1]) for l in L):
+                    sel = (k_, L)
+            if sel is None:
+                raise AnchorMissing("the Option<&[usize]> row selection argument of ArrowStreamEncoder::write_batch in %s" % tag)
+
+            def all_rows(op, A, B, truth):
+                def is_acc(X):
+                    return any(l[0] == "call" and re.search(r"(Vec|slice)::len$", norm_path(l[1])) and from_acc(b.call_at(l[2]).args[0]) for l in X)
+
+                def is_batch(X):
+                    return any(l[0] == "call" and re.search(r"ColumnBatch::len$", norm_path(l[1])) for l in X)
+                if not ((is_acc(A) and is_batch(B)) or (is_acc(B) and is_batch(A))):
+                    return False
+                return (op == "Eq" and truth) or (op == "Ne" and not truth)
+            n_none = n_some = 0
+            for l in sel[1]:
+                if l[0] != "agg":
+                    continue
+                if l[1].endswith("Option::None"):
+                    n_none += 1
+                    if not cmp_guard(b, l[2], all_rows):
+                        bad.append(("whole-batch-without-all-rows:%s" % tag, "%s hands the encoder None (= encode the whole batch) on a path that has not established len(accepted rows) == len(batch): rows dropped by de-duplication, OFFSET or LIMIT reappear in the Arrow stream only" % tag, sp(b, l[2])))
+                elif l[1].endswith("Option::Some"):
+                    n_some += 1
+                    ag = [v for (bb, j, v, dst) in b.aggregates("option::Option", "Some") if bb == l[2]]
+                    if ag and not any(from_acc(o) for v in ag for o in v["o"]):
+                        bad.append(("selection-not-accepted-rows:%s" % tag, "the row selection %s hands to the Arrow encoder is not the accepted rows" % tag, sp(b, l[2])))
+            if n_some == 0:
+                bad.append(("no-row-selection:%s" % tag, "%s never hands a row selection to the encoder: rows not accepted are encoded anyway" % tag, sp(b, wb.bb)))
+            inst.sites += [sp(b, wb.bb), "%s: row selection arg #%d: %d None, %d Some origin(s)" % (tag, sel[0], n_none, n_some)]
+
+        def accepted_vec(b, tag):
+            pushes = [c for c in b.calls if not c.cleanup and c.nname.endswith("Vec::push")]
+            acc_c = [c for c in b.calls if not c.cleanup and c.nname.endswith("try_accept_row")]
+            accv = set()
+            for pc in pushes:
+                if acc_c:
+                    if any(b.dominates_edge(e, pc.bb) for ac in acc_c for e in bool_result_edge(b, ac, True)):
+                        accv |= b._origin_locals(pc.args[0])
+                # the SHOW writer decides acceptance inline: its vector is the one the row loop's own index is pushed into
+                elif any(l[0] == "call" and re.search(r"Range<A>>::next$|Iterator>::next$|Iterator::next$", l[1]) for l in b.origins(pc.args[1])):
+                    accv |= b._origin_locals(pc.args[0])
+            if not accv:
+                raise AnchorMissing("the vector accepted row indices are pushed into in %s" % tag)
+            return accv
+        q = F.fn("query::streaming::response_writer::QueryResponseWriter::write_arrow")
+        site(q, accepted_vec(q, "QUERY write_arrow"), None, "QUERY write_arrow")
+        sw = F.fn("show::streaming::response_writer::ShowResponseWriter::write_arrow")
+        sb = F.fn("show::streaming::response_writer::ShowResponseWriter::write_arrow_batch")
+        site(sb, set(), "row_indices", "SHOW write_arrow_batch")
+        av = accepted_vec(sw, "SHOW write_arrow")
+        for c in sw.calls:
+            if not c.cleanup and c.nname.endswith("write_arrow_batch"):
+                if not any(sw._origin_locals(a) & av for a in c.args):
+                    bad.append(("selection-not-accepted-rows:SHOW write_arrow", "SHOW write_arrow does not pass the accepted rows to write_arrow_batch", sp(sw, c.bb)))
+        return bad
+    ctx.run("C20.f", "K8 GUARD", "QueryResponseWriter::write_arrow / ShowResponseWriter::write_arrow_batch", "the Arrow stream encodes a whole batch only when every row of it was accepted", f_)
